@@ -135,6 +135,15 @@ type recHook struct {
 	// writes were forwarded
 	cutEvent  int
 	cutWrites int
+	// dead: the broker process has been killed; nothing more is recorded or forwarded (what the
+	// abandoned in-memory broker still does is of no consequence)
+	dead bool
+}
+
+func (h *recHook) kill() {
+	h.mu.Lock()
+	h.dead = true
+	h.mu.Unlock()
 }
 
 func newRecHook(inner mqtt.Hook, limit int) *recHook {
@@ -173,6 +182,10 @@ func (h *recHook) OnPacketSent(cl *mqtt.Client, pk packets.Packet, b []byte) {
 	switch pk.FixedHeader.Type {
 	case packets.Puback, packets.Pubrec, packets.Suback, packets.Unsuback:
 		h.mu.Lock()
+		if h.dead {
+			h.mu.Unlock()
+			return
+		}
 		h.events = append(h.events, sx.L{sx.N(12), sx.S(cl.ID), sx.N(pk.FixedHeader.Type), sx.N(pk.PacketID), sx.N(pk.ReasonCode)})
 		h.mu.Unlock()
 	}
@@ -181,6 +194,10 @@ func (h *recHook) OnPacketSent(cl *mqtt.Client, pk packets.Packet, b []byte) {
 // OnPacketProcessed records the end of the handling of one inbound packet (marker 13).
 func (h *recHook) OnPacketProcessed(cl *mqtt.Client, pk packets.Packet, err error) {
 	h.mu.Lock()
+	if h.dead {
+		h.mu.Unlock()
+		return
+	}
 	h.events = append(h.events, sx.L{sx.N(13), sx.S(cl.ID)})
 	h.mu.Unlock()
 }
@@ -200,6 +217,9 @@ func takenOver(cl *mqtt.Client) bool {
 func (h *recHook) OnSessionEstablished(cl *mqtt.Client, pk packets.Packet) {
 	h.mu.Lock()
 	defer h.mu.Unlock()
+	if h.dead {
+		return
+	}
 	h.superseded(cl)
 	to := takenOver(cl)
 	if pk.Connect.Clean { // marker 15: the session was requested with Clean Start / Clean Session 1
@@ -218,6 +238,9 @@ func (h *recHook) OnSessionEstablished(cl *mqtt.Client, pk packets.Packet) {
 func (h *recHook) OnWillSent(cl *mqtt.Client, pk packets.Packet) {
 	h.mu.Lock()
 	defer h.mu.Unlock()
+	if h.dead {
+		return
+	}
 	h.superseded(cl)
 	to := takenOver(cl)
 	h.events = append(h.events, sx.L{sx.N(1), sxClient(cl), sx.Bool(to)})
@@ -233,6 +256,9 @@ func (h *recHook) OnWillSent(cl *mqtt.Client, pk packets.Packet) {
 func (h *recHook) OnDisconnect(cl *mqtt.Client, err error, expire bool) {
 	h.mu.Lock()
 	defer h.mu.Unlock()
+	if h.dead {
+		return
+	}
 	h.superseded(cl)
 	to := takenOver(cl)
 	h.events = append(h.events, sx.L{sx.N(2), sxClient(cl), sx.Bool(to), sx.Bool(expire)})
@@ -254,6 +280,9 @@ func (h *recHook) OnDisconnect(cl *mqtt.Client, err error, expire bool) {
 func (h *recHook) OnSubscribed(cl *mqtt.Client, pk packets.Packet, reasonCodes []byte) {
 	h.mu.Lock()
 	defer h.mu.Unlock()
+	if h.dead {
+		return
+	}
 	h.superseded(cl)
 	l := sx.L{}
 	n := 0
@@ -287,6 +316,9 @@ func (h *recHook) OnSubscribed(cl *mqtt.Client, pk packets.Packet, reasonCodes [
 func (h *recHook) OnUnsubscribed(cl *mqtt.Client, pk packets.Packet) {
 	h.mu.Lock()
 	defer h.mu.Unlock()
+	if h.dead {
+		return
+	}
 	h.superseded(cl)
 	l := sx.L{}
 	for _, s := range pk.Filters {
@@ -301,6 +333,9 @@ func (h *recHook) OnUnsubscribed(cl *mqtt.Client, pk packets.Packet) {
 func (h *recHook) OnRetainMessage(cl *mqtt.Client, pk packets.Packet, r int64) {
 	h.mu.Lock()
 	defer h.mu.Unlock()
+	if h.dead {
+		return
+	}
 	h.events = append(h.events, sx.L{sx.N(5), sx.S(cl.ID), sxPacket(pk), sx.Bool(r == -1)})
 	if h.allow(1) == 1 {
 		h.Hook.OnRetainMessage(cl, pk, r)
@@ -310,6 +345,9 @@ func (h *recHook) OnRetainMessage(cl *mqtt.Client, pk packets.Packet, r int64) {
 func (h *recHook) OnQosPublish(cl *mqtt.Client, pk packets.Packet, sent int64, resends int) {
 	h.mu.Lock()
 	defer h.mu.Unlock()
+	if h.dead {
+		return
+	}
 	h.superseded(cl)
 	h.events = append(h.events, sx.L{sx.N(6), sx.S(cl.ID), sxPacket(pk), sx.N(uint64(sent))})
 	if h.allow(1) == 1 {
@@ -320,6 +358,9 @@ func (h *recHook) OnQosPublish(cl *mqtt.Client, pk packets.Packet, sent int64, r
 func (h *recHook) OnQosComplete(cl *mqtt.Client, pk packets.Packet) {
 	h.mu.Lock()
 	defer h.mu.Unlock()
+	if h.dead {
+		return
+	}
 	h.superseded(cl)
 	h.events = append(h.events, sx.L{sx.N(7), sx.S(cl.ID), sx.N(pk.PacketID)})
 	if h.allow(1) == 1 {
@@ -330,6 +371,9 @@ func (h *recHook) OnQosComplete(cl *mqtt.Client, pk packets.Packet) {
 func (h *recHook) OnQosDropped(cl *mqtt.Client, pk packets.Packet) {
 	h.mu.Lock()
 	defer h.mu.Unlock()
+	if h.dead {
+		return
+	}
 	h.superseded(cl)
 	h.events = append(h.events, sx.L{sx.N(8), sx.S(cl.ID), sx.N(pk.PacketID)})
 	if h.allow(1) == 1 {
@@ -340,6 +384,9 @@ func (h *recHook) OnQosDropped(cl *mqtt.Client, pk packets.Packet) {
 func (h *recHook) OnSysInfoTick(info *system.Info) {
 	h.mu.Lock()
 	defer h.mu.Unlock()
+	if h.dead {
+		return
+	}
 	h.events = append(h.events, sx.L{sx.N(9), sxInfo(*info.Clone())})
 	if h.allow(1) == 1 {
 		h.Hook.OnSysInfoTick(info)
@@ -349,6 +396,9 @@ func (h *recHook) OnSysInfoTick(info *system.Info) {
 func (h *recHook) OnRetainedExpired(filter string) {
 	h.mu.Lock()
 	defer h.mu.Unlock()
+	if h.dead {
+		return
+	}
 	h.events = append(h.events, sx.L{sx.N(10), sx.S(filter)})
 	if h.allow(1) == 1 {
 		h.Hook.OnRetainedExpired(filter)
@@ -358,6 +408,9 @@ func (h *recHook) OnRetainedExpired(filter string) {
 func (h *recHook) OnClientExpired(cl *mqtt.Client) {
 	h.mu.Lock()
 	defer h.mu.Unlock()
+	if h.dead {
+		return
+	}
 	h.superseded(cl)
 	h.events = append(h.events, sx.L{sx.N(11), sx.S(cl.ID)})
 	if h.allow(1) == 1 {
@@ -428,8 +481,16 @@ func (h *rsAuthHook) OnACLCheck(cl *mqtt.Client, topic string, write bool) bool 
 	return !strings.HasPrefix(topic, "deny/")
 }
 
+// rsMaxCap: the server's maximum message expiry interval for the brokers created from now on
+// (-1 = the default, 86400 s); every broker process of one history uses the same value.
+var rsMaxCap int64 = -1
+
 func newRsBroker(hook mqtt.Hook, cfg any, limit int) (*rsBroker, error) {
 	opts := &mqtt.Options{Logger: stLogger}
+	if rsMaxCap >= 0 {
+		opts.Capabilities = mqtt.NewDefaultServerCapabilities()
+		opts.Capabilities.MaximumMessageExpiryInterval = rsMaxCap
+	}
 	s := mqtt.New(opts)
 	if err := s.AddHook(new(rsAuthHook), nil); err != nil {
 		return nil, err
